@@ -12,7 +12,7 @@ from .engine import Unsupported
 from .ops import FullEngine
 from . import solve
 
-CONTRACT_MODULES = ["contracts.structure", "contracts.helpers", "contracts.builders", "contracts.traversal", "contracts.props"]
+CONTRACT_MODULES = ["contracts.structure", "contracts.helpers", "contracts.builders", "contracts.traversal", "contracts.output", "contracts.props"]
 
 
 def load_contracts():
@@ -112,13 +112,14 @@ def discharge_all(eng, res, keep_models=False, shard=None):
             order.append(key)
         groups[key].append(ob)
     pre_proved = {}
+    t_begin = time.time()
     for gi, key in enumerate(order):
         members = groups[key]
         if shard is not None and gi % shard[1] != shard[0]:
             for ob in members:
                 pre_proved[ob.oid] = "skip"
             continue
-        if len(members) > 1:
+        if len(members) > 1 and time.time() - t_begin < float(os.environ.get("PYVC_FUNC_BUDGET_S", "300")) * 0.7:
             nontriv = [ob for ob in members if not z3.is_true(ob.goal)]
             if nontriv:
                 comb = Oblig(members[0].oid + "+group", members[0].func, "group", members[0].hyps, members[0].schemas,
@@ -130,7 +131,16 @@ def discharge_all(eng, res, keep_models=False, shard=None):
                 if r is not None and r.status == "proved":
                     for ob in nontriv:
                         pre_proved[ob.oid] = (r.backend + " (grouped)", round(r.seconds / len(nontriv), 4), r.ninst)
+    t_start = t_begin
+    budget = float(os.environ.get("PYVC_FUNC_BUDGET_S", "300"))
+    skipped = 0
     for idx, ob in enumerate(eng.obligs):
+        if time.time() - t_start > budget and pre_proved.get(ob.oid) not in ("skip",) and ob.oid not in pre_proved:
+            # the time budget of this function is used up: the rest is undecided (never a violation)
+            skipped += 1
+            res["obligations"].append({"id": ob.oid, "kind": ob.kind, "status": "unknown", "backend": "-", "seconds": 0.0,
+                                       "reason": f"time budget of {budget:.0f}s for this function exhausted", "meta": ob.meta})
+            continue
         pp = pre_proved.get(ob.oid)
         if pp == "skip":
             continue
